@@ -39,7 +39,7 @@ def parseES (tok : String) : Option ES :=
   match tok.splitOn "|" with
   | [i, l, t] => do
     let id ← unesc i; let lv ← l.toNat?; let tm ← t.toInt?
-    pure { id := id, level := lv, time := tm }
+    pure { id := id, level := lv, time := { time := tm } }
   | _ => none
 
 def parseDump (tok : String) : Option Dump :=
@@ -56,7 +56,7 @@ def sortES (l : List ES) : List ES := l.mergeSort (fun a b => decide (a.id ≤ b
 def sortTopics (d : Dump) : Dump := d.mergeSort (fun a b => decide (a.1 ≤ b.1))
 def canon (d : Dump) : Dump := sortTopics (d.map fun (T, es) => (T, sortES es))
 
-def renderES (e : ES) : String := s!"{esc e.id}|{e.level}|{e.time}"
+def renderES (e : ES) : String := s!"{esc e.id}|{e.level}|{e.time.time}"
 def renderDump (d : Dump) : String :=
   if d.isEmpty then "-" else
   ";".intercalate (d.map fun (T, es) => esc T ++ "=" ++ (if es.isEmpty then "-" else ",".intercalate (es.map renderES)))
@@ -172,7 +172,7 @@ def cmpRun (what : String) (topics ids : List String) (r : ORun) (m : Mig.Fs × 
   else acc
 
 def parseRec (T i l t : String) : Option (String × ES) := do
-  pure (← unesc T, { id := ← unesc i, level := ← l.toNat?, time := ← t.toInt? })
+  pure (← unesc T, { id := ← unesc i, level := ← l.toNat?, time := { time := ← t.toInt? } })
 
 def judge (lines : Array String) : Verdict := Id.run do
   -- pass 1: the files before the first Open
